@@ -132,7 +132,7 @@ func (m *ModuleStatic) reloadHandlers() map[string]interface{} {
 }
 
 func errorStatusCode(err error) int {
-	if os.IsNotExist(err) {
+	if isNotExist(err) {
 		return bfe_http.StatusNotFound
 	}
 	if os.IsPermission(err) {
@@ -154,12 +154,12 @@ func (m *ModuleStatic) openStaticFile(req *bfe_http.Request, root string,
 
 	// try specified file
 	file, err := newStaticFile(root, filename, encodingList, m)
-	if os.IsNotExist(err) {
+	if isNotExist(err) {
 		m.state.FileBrowseNotExist.Inc(1)
 	}
 
 	// try default file
-	if os.IsNotExist(err) || err == errUnexpectedDir {
+	if isNotExist(err) || err == errUnexpectedDir {
 		if len(defaultFile) != 0 {
 			file, err = newStaticFile(root, defaultFile, encodingList, m)
 			m.state.FileBrowseFallbackDefault.Inc(1)
